@@ -103,6 +103,9 @@ pub async fn handle_notify_get_or_head(
         Err(resp) => return Ok(resp),
     };
 
+    #[cfg(routinator_verif)]
+    crate::verif::preempt("notify-after-check");
+
     if wait {
         notify.subscribe().recv().await;
     }
